@@ -22,6 +22,11 @@ FAIL_KINDS = {
     "parse": ["{ RdV = ; }", "{ if (RsV { RdV = 1; } }", "{"],
     "unsupported": ["{ int32_t zz = RsV; RdV = foo(zz); }", "{ int32_t q = RsV; while (q) { q = q - 1; } }", "{ int32_t zz = RsV + 1; RdV = *zz; }"],
     "type": ["{ float f = RsV; RdV = (int32_t) f; }", "{ const int32_t k = RsV; k = 3; RdV = k; }"],
+    # the very first leaf raises, after its attribute flag is set and before any operation is registered (holder still empty)
+    "early": ["{ if (OsN) { RdV = RsV; } }", "{ OsN; }", "{ OdV = PuN; }", "{ JUMP(OsV); }"],
+    # raises late, after every attribute flag and a predicate number were set
+    "flags": ["{ if (PuN) { RdV = mem_load_u32(RsV); mem_store_u32(RsV, RtV); P1 = 1; JUMP(RtV); RdV = foo(RsV); } }",
+              "{ P2 = RsV; if (RsV) { RdV = mem_load_s8(RtV); } RdV = *RsV; }"],
 }
 PROBES_AFTER_FAILURE = ["{ RdV = zz; }", "{ RdV = q + k; }"]  # must be rejected on a clean compiler; stale locals would make them compile
 
@@ -225,7 +230,10 @@ def main(tier):
         return s
 
     def fail_step(kind, comp="A", r=rng):
-        return {"kind": "fail:" + kind, "id": None, "comp": comp, "entry": "stmt", "text": r.choice(FAIL_KINDS[kind])}
+        text = r.choice(FAIL_KINDS[kind])
+        if kind not in ("lex", "parse") and r.random() < 0.4:  # the failure happens inside transform_insn / compile_insn, not compile_c_stmt
+            return {"kind": "fail:" + kind, "id": None, "comp": comp, "entry": r.choice(["transform_insn", "compile_insn"]), "name": "FAILING_INSN", "parts": [text], "text": text}
+        return {"kind": "fail:" + kind, "id": None, "comp": comp, "entry": "stmt", "text": text}
 
     # (1) fault enumeration: a failing input of every kind at every position of short histories
     nshort = 4 if tier == "quick" else 12
